@@ -754,6 +754,10 @@ impl<Tr: ?Sized + TrOps, M: BackOps> World<Tr, M> {
                     IterKind::Mut => run_iter!(lib!(vv.iter_mut()), |e: any_vec::element::ElementMut<'_, Tr, M>| e.downcast_ref::<T>().unwrap().token()),
                     IterKind::TRef => run_iter!(lib!(vv.downcast_ref::<T>().unwrap().iter()), |e: &T| e.token()),
                     IterKind::TMut => run_iter!(lib!(vv.downcast_mut::<T>().unwrap().iter_mut()), |e: &mut T| e.token()),
+                    IterKind::IRef => run_iter!(lib!(IntoIterator::into_iter(&*vv)), |e: any_vec::element::ElementRef<'_, Tr, M>| e.downcast_ref::<T>().unwrap().token()),
+                    IterKind::IMut => run_iter!(lib!(IntoIterator::into_iter(&mut *vv)), |e: any_vec::element::ElementMut<'_, Tr, M>| e.downcast_ref::<T>().unwrap().token()),
+                    IterKind::ITRef => run_iter!(lib!(IntoIterator::into_iter(vv.downcast_ref::<T>().unwrap())), |e: &T| e.token()),
+                    IterKind::ITMut => run_iter!(lib!(IntoIterator::into_iter(vv.downcast_mut::<T>().unwrap())), |e: &mut T| e.token()),
                 }
             }
             Op::Drain(a, v, sb, eb, pat, fin_drop) => {
@@ -914,6 +918,7 @@ impl<Tr: ?Sized + TrOps, M: BackOps> World<Tr, M> {
                     IterKind::Mut => run_clone!(lib!(vv.iter_mut()), |e: any_vec::element::ElementMut<'_, Tr, M>| e.downcast_ref::<T>().unwrap().token()),
                     IterKind::TRef => run_clone!(lib!(vv.downcast_ref::<T>().unwrap().iter()), |e: &T| e.token()),
                     IterKind::TMut => panic!("slice::IterMut is not Clone"),
+                    _ => panic!("iter_clone: plain iterator kinds only"),
                 }
             }
             Op::ProbeTypes(v, idx) => {
@@ -1108,6 +1113,10 @@ impl<Tr: ?Sized + TrOps, M: BackOps> World<Tr, M> {
                     IterKind::Mut => run_iter!(lib!(vv.iter_mut()), |e: any_vec::element::ElementMut<'_, Tr, M>| e.downcast_ref::<T>().unwrap().token()),
                     IterKind::TRef => run_iter!(lib!(vv.downcast_ref::<T>().unwrap().iter()), |e: &T| e.token()),
                     IterKind::TMut => run_iter!(lib!(vv.downcast_mut::<T>().unwrap().iter_mut()), |e: &mut T| e.token()),
+                    IterKind::IRef => run_iter!(lib!(IntoIterator::into_iter(&*vv)), |e: any_vec::element::ElementRef<'_, Tr, M>| e.downcast_ref::<T>().unwrap().token()),
+                    IterKind::IMut => run_iter!(lib!(IntoIterator::into_iter(&mut *vv)), |e: any_vec::element::ElementMut<'_, Tr, M>| e.downcast_ref::<T>().unwrap().token()),
+                    IterKind::ITRef => run_iter!(lib!(IntoIterator::into_iter(vv.downcast_ref::<T>().unwrap())), |e: &T| e.token()),
+                    IterKind::ITMut => run_iter!(lib!(IntoIterator::into_iter(vv.downcast_mut::<T>().unwrap())), |e: &mut T| e.token()),
                 }
             }
             Op::CursorMax(a, pat) => {
